@@ -115,7 +115,7 @@ def run_program(ctx, exe, nk, cfg, outdir, tag, timeout=240, stall_s=45):
            '--sleep', '%d:%d' % cfg.sleep, '--out', outdir, '--place', pf, '--scenario', cfg.scenario, '--events', str(cfg.events), '--', '--mca', 'mca_sched', cfg.sched]
     for k, v in sorted(cfg.mca.items()): cmd += ['--mca', k, str(v)]
     if cfg.mb or cfg.mpimt:
-        i = cmd.index('--'); cmd[i:i] = ['--mb', str(cfg.mb), '--mpimt', str(cfg.mpimt)]
+        i = cmd.index('--'); cmd[i:i] = ['--mb', str(cfg.mb), '--mpimt', str(cfg.mpimt), '--hblate', '1']
     env = dict(cfg.env)
     if cfg.yield_: env['PARSEC_VERIF_YIELD'] = cfg.yield_
     r = ctx.run(cmd, env=env, timeout=timeout, stall_s=stall_s, mpi=cfg.ranks if cfg.ranks > 1 else 0, tag=tag)
